@@ -27,9 +27,9 @@ theorem hasDup_false_iff (l : List Key) : hasDup l = false ↔ l.Nodup := by
 /-- The lookup-level content of the invariant (everything except the representation detail that
 the node table has no duplicate keys). -/
 structure InvL (s : State) : Prop extends IndexInv s where
-  cl_sound : ∀ a c, s.claims.get (a, c) = some () → Implied s a c
-  cl_compl : ∀ a c, Implied s a c → s.claims.get (a, c) = some ()
-  st_nodes : ∀ id, (∃ st, s.status.get id = some st) ↔ (∃ n, s.nodes.get id = some n)
+  cl_sound : ∀ a c ths, s.claims.get (a, c) = some ths → Implied s a ths c
+  cl_compl : ∀ a c ths, Implied s a ths c → s.claims.get (a, c) = some ths
+  st_nodes : ∀ id n, s.nodes.get id = some n → ∃ st, s.status.get id = some st
 
 theorem Inv.toInvL {s : State} (h : Inv s) : InvL s :=
   { toIndexInv := h.toIndexInv, cl_sound := h.cl_sound, cl_compl := h.cl_compl, st_nodes := h.st_nodes }
@@ -174,15 +174,16 @@ theorem indexInvB_iff (s : State) : indexInvB s = true ↔ IndexInv s := by
     exact ⟨⟨⟨⟨⟨⟨h.km_sound, h.km_compl⟩, h.ca_sound⟩, h.ca_compl⟩, h.be_sound, h.be_compl⟩, h.rbe_sound, h.rbe_compl⟩,
       fun id n hn => ⟨h.node_id id n hn, h.sub_nodup id n hn⟩, h.rt_id⟩
 
-theorem impliedB_iff (s : State) (a : Addr) (c : Claim) : impliedB s a c = true ↔ Implied s a c := by
+theorem impliedB_iff (s : State) (a : Addr) (c : Claim) (ths : List Thr) :
+    impliedB s a c ths = true ↔ Implied s a ths c := by
   cases c with
   | entity =>
     cases a with
     | ent e =>
-      simp only [impliedB, Implied, has_eq_true]
+      simp only [impliedB, Implied, Bool.and_eq_true, has_eq_true, beq_iff_eq]
       constructor
-      · rintro ⟨ws, h⟩; exact ⟨e, ws, rfl, h⟩
-      · rintro ⟨e', ws, he, h⟩; cases he; exact ⟨ws, h⟩
+      · rintro ⟨⟨ws, h⟩, ht⟩; exact ⟨e, ws, rfl, h, ht⟩
+      · rintro ⟨e', ws, he, h, ht⟩; cases he; exact ⟨⟨ws, h⟩, ht⟩
     | rt r =>
       simp only [impliedB, Implied]
       constructor
@@ -200,55 +201,54 @@ theorem impliedB_iff (s : State) (a : Addr) (c : Claim) : impliedB s a c = true 
     | some rt => simp
 
 theorem claimsB_iff (s : State) : claimsB s = true ↔
-    (∀ a c, s.claims.get (a, c) = some () → Implied s a c) ∧ (∀ a c, Implied s a c → s.claims.get (a, c) = some ()) := by
+    (∀ a c ths, s.claims.get (a, c) = some ths → Implied s a ths c) ∧
+    (∀ a c ths, Implied s a ths c → s.claims.get (a, c) = some ths) := by
   unfold claimsB
   simp only [Bool.and_eq_true]
   rw [all_keys_iff, all_keys_iff, all_keys_iff, all_keys_iff]
   constructor
   · rintro ⟨⟨⟨h1, h2⟩, h3⟩, h4⟩
     refine ⟨?_, ?_⟩
-    · intro a c hc
-      exact (impliedB_iff s a c).1 (h1 (a, c) () hc)
-    · intro a c hi
+    · intro a c ths hc
+      have := h1 (a, c) ths hc
+      simp only [hc] at this
+      exact (impliedB_iff s a c ths).1 this
+    · intro a c ths hi
       cases c with
       | entity =>
-        obtain ⟨e, ws, rfl, hw⟩ := hi
-        exact get_unit.1 (h2 e ws hw)
+        obtain ⟨e, ws, rfl, hw, rfl⟩ := hi
+        simpa using h2 e ws hw
       | node id =>
-        obtain ⟨n, hn, rfl⟩ := hi
+        obtain ⟨n, hn, rfl, rfl⟩ := hi
         have := h3 id n hn
         simp only [hn] at this
-        exact get_unit.1 this
+        simpa using this
       | runtime r =>
-        obtain ⟨rt, hr, ha⟩ := hi
+        obtain ⟨rt, hr, ha, rfl⟩ := hi
         have := h4 r rt hr
         simp only [hr, ha] at this
-        exact get_unit.1 this
+        simpa using this
   · rintro ⟨h1, h2⟩
     refine ⟨⟨⟨?_, ?_⟩, ?_⟩, ?_⟩
-    · rintro ⟨a, c⟩ u hc
-      exact (impliedB_iff s a c).2 (h1 a c (by cases u; exact hc))
+    · rintro ⟨a, c⟩ ths hc
+      simp only [hc]
+      exact (impliedB_iff s a c ths).2 (h1 a c ths hc)
     · intro e ws hw
-      exact get_unit.2 (h2 _ _ ⟨e, ws, rfl, hw⟩)
+      simpa using h2 (.ent e) .entity [Thr.entity] ⟨e, ws, rfl, hw, rfl⟩
     · intro id n hn
       simp only [hn]
-      exact get_unit.2 (h2 _ _ ⟨n, hn, rfl⟩)
+      simpa using h2 (.ent n.entity) (.node id) (nodeThr n) ⟨n, hn, rfl, rfl⟩
     · intro r rt hr
       simp only [hr]
       cases ha : rt.stakingAddr with
       | none => rfl
-      | some a => exact get_unit.2 (h2 _ _ ⟨rt, hr, ha⟩)
+      | some a => simpa using h2 a (.runtime r) (rtThr rt) ⟨rt, hr, ha, rfl⟩
 
 theorem statusB_iff (s : State) : statusB s = true ↔
-    ∀ id, (∃ st, s.status.get id = some st) ↔ (∃ n, s.nodes.get id = some n) := by
+    ∀ id n, s.nodes.get id = some n → ∃ st, s.status.get id = some st := by
   unfold statusB
-  rw [Bool.and_eq_true, all_keys_iff, all_keys_iff]
+  rw [all_keys_iff]
   simp only [has_eq_true]
-  constructor
-  · rintro ⟨h1, h2⟩ id
-    exact ⟨fun ⟨st, hst⟩ => h2 id st hst, fun ⟨n, hn⟩ => h1 id n hn⟩
-  · intro h
-    exact ⟨fun id n hn => (h id).2 ⟨n, hn⟩, fun id st hst => (h id).1 ⟨st, hst⟩⟩
 
 /-- The executable invariant says exactly what the propositional one says. -/
 theorem invB_iff (s : State) : invB s = true ↔ InvL s := by
